@@ -173,6 +173,11 @@ def windows_for(ctx, zi):
         ws.append((D(1985, 6, 15), D(1993, 2, 1)))
     if zi % 3 == 2 or ctx.big:
         ws.append((D(2009, 1, 1), D(2011, 1, 1)))
+    # windows that end a few weeks after a usual transition date (closer than the search's largest stride)
+    if zi % 3 == 0 or ctx.big:
+        ws.append((D(2021, 1, 1), D(2021, 11, 15)))
+    if zi % 3 == 1 or ctx.big:
+        ws.append((D(2019, 1, 1), D(2021, 4, 20)))
     return ws
 
 
@@ -195,7 +200,7 @@ def run(ctx, res):
             extra = sorted(zoneinfo.available_timezones())
             zones += rng.sample(extra, 25)
     res.rule = ("(zone id, provider, window): quick = 25 named zones x {zoneinfo, pytz} x 2 windows out of "
-                "{1995-2012, 1970-2038, 1985-06-15..1993-02-01, 2009-2011}; thorough = all zone ids x all 4 windows; "
+                "{1995-2012, 1970-2038, 1985-06-15..1993-02-01, 2009-2011, 2021-01-01..2021-11-15, 2019-01-01..2021-04-20}; thorough = all zone ids x all 6 windows; "
                 "instants = every transition of the source zone in the window -1 s/0/+1 s, interval midpoints, a "
                 "grid (thorough: 6 h for windows <= 3 y, 1 d <= 10 y, else 5 d; quick: 10 d); non-trivial = the source zone has a transition inside the window")
     known = ctx.known
@@ -252,6 +257,7 @@ def run(ctx, res):
         for j, m in zip(jobs, outs):
             inp = {"zone": j["zone"], "provider": j["provider"], "window": [str(j["first"]), str(j["last"])]}
             j["inp"] = inp
+            j["agree"] = m is None or m == j["obs"]     # the generated component is the one the faithful model predicts
             if m is not None:
                 res.corr("from_tzinfo (%s)" % j["provider"], inp, j["obs"], m)
             why = wellformed(j["comp"], j["first_wall"], j["last_wall"])
@@ -391,8 +397,12 @@ def classify(ctx, res, j, rfc, guard, known, tally):
             tally[key] = tally.get(key, 0) + 1
             ex = {"zone": zone, "provider": provider, "window": j["inp"]["window"], "instant": str(naive(t)) + "Z",
                   "interpretation": interp, "got": got, "source zone": want}
-            if cause and cause in known:
+            if cause and cause in known and j.get("agree", True):
                 res.known(cause, ex, known[cause]["summary"])
+            elif not j.get("agree", True):
+                res.fail("C13: generated VTIMEZONE differs from the source zone, and the component is not the one the faithful "
+                         "model of the generator predicts (so the recorded findings do not explain it)",
+                         {**j["inp"], "instant": t, "interpretation": interp}, observed=got, expected=want)
             else:
                 res.fail("C13: generated VTIMEZONE differs from the source zone (cause not among the recorded classes)",
                          {**j["inp"], "instant": t, "interpretation": interp}, observed=got, expected=want)
